@@ -26,7 +26,7 @@ META = dict(
          '4 (quick) / 16 (thorough) PYTHONHASHSEED values',
     trusted_base=['CPython str hashing is controlled by PYTHONHASHSEED', 'IEEE doubles / scipy.linalg.expm'],
     assumptions=['named results are compared at 1e-9 relative (statement) plus an absolute floor of 1e-12 x the natural '
-                 'scale of the statistic (mean tree height to the power of the order), which only matters for entries '
+                 'scale of the statistic (n x mean tree height, to the power of the order), which only matters for entries '
                  'that are exactly zero in one rendering; the subprocess sweep at 1e-12 relative + 1e-14 x scale',
                  'the hash-seed clause is exploration of the runtime: only the listed seeds are tried',
                  'renderings in which PhaseGen logs a warning are skipped'],
@@ -175,6 +175,7 @@ def axis_nontrivial(axis, inv, ref_axis):
 def compare(ctx, cfg, r, ref, res, axis, what='rendering'):
     """ref / res: outputs of named_results; reports every key family that differs once"""
     scale = ref['th.mean'][0] if not isinstance(ref['th.mean'][0], str) else 1.0
+    scale = float(scale) * sum(cfg['n'].values())       # size of the raw moments the code works with
     if set(ref) != set(res):
         ctx.violation('keys', cfg=cfg, rendering=r, only_reference=sorted(set(ref) - set(res)),
                       only_rendering=sorted(set(res) - set(ref)), deme_axis=axis)
